@@ -20,7 +20,14 @@ CLAIM = {
             'in one bit (chord monotonicity over R + Gray step theorems). QAM 4/16: whole-table kernel evaluation. '
             'The PSK/QAM label maps are hand models tied by exact comparison of every constellation table with '
             'natural[model index]; two known findings (setPhaseOffset order, QAM>=64 labelling) carry proved '
-            'negative witnesses and are replayed on the code by the oracle.',
+            'negative witnesses and are replayed on the code by the oracle. R15/R16: the PSK object (offset histories) '
+            'and the caller\'s index buffers (refilled in place between calls, one buffer in both roles) are state machines '
+            'of Model/C15Robust.lean; proved: a setter takes effect for every new value and tables of different offsets '
+            'are 2|sin(d/2)| apart, zero bit errors only for equal arrays, distinct integers have distinct codes, the k-th '
+            'call returns the fresh result for the contents at call time, earlier results and the buffers never change; '
+            'tied by history correspondence (driver ops hist / pskhist) and checked on the code from first principles '
+            '(extended-precision PSK points, digit-wise Gray code) for close-but-distinct offsets / index values and '
+            'for reused argument objects.',
     'note': 'Trusted: Lean kernel, axioms {propext, Classical.choice, Quot.sound}, harness/translate.py integer '
             'fragment, the table correspondence for fundamental.py label maps (and the C01 table correspondence for '
             'the natural constellation). QAM Gray theorem is proved for orders 4 and 16 only because the code is NOT '
@@ -288,6 +295,11 @@ ORACLES = {
 }
 
 
+from harness.props import c15_robust  # noqa: E402  (R15 / R16 classes)
+
+ORACLES.update(c15_robust.ORACLES)
+
+
 def run_oracle(ctx, call, case, key=None, nontrivial=True):
     ctx.count((call, key if key is not None else repr(case)), nontrivial)
     try:
@@ -462,21 +474,27 @@ def check(ctx):
     ctx.rule = ('integers: all n < N_small, 2^k-1/2^k/2^k+1 for k<=62, seeded random values of random bit '
                 'length <= 62 (scalar, int32 and int64 array paths); constellations: PSK 2..2^k with seeded '
                 'phase offsets, QAM 4..4^k; non-trivial = distinct (function, input) with input > 1 / distinct '
-                '(class, M)')
+                '(class, M); R15: deterministic + seeded sets of close-but-distinct phase offsets (1e-9..3e-15, adjacent '
+                'doubles, relative 1e-6, 12th decimal, below 1e-8; clear of the 1e-15 snap threshold by a factor 3) and '
+                'index values (n/n+1 above 2^53, relative 1e-5..1e-17); R16: histories of 2-4 calls per entry point on '
+                'ONE preallocated array per role refilled in place, the same array in both roles, the argument '
+                'overwritten after the call, a 0-d offset buffer, two modulators of one order alive at once')
     quick = ctx.tier == 'quick'
     n_small, n_rand = (1 << 12, 2000) if quick else (1 << 17, 200000)
     psk_max, qam_max = (1 << 10, 4 ** 5) if quick else (1 << 12, 4 ** 6)
     core.prove(ctx, MODULE, generated=['Conversion'], drivers=[DRIVER], scratch=ctx.scratch)
-    ctx.required_branches = ['ints>=2^16', 'ints>=2^32']
+    ctx.required_branches = ['ints>=2^16', 'ints>=2^32'] + c15_robust.CORR_BRANCHES + c15_robust.ORACLE_BRANCHES
     try:
         correspondence(ctx, n_small, n_rand, psk_max, qam_max)
+        c15_robust.correspondence(ctx, quick)
     except core.Infra as e:
         # driver unavailable because the regenerated model no longer builds
         if not ctx.broken:
             raise
         ctx.notes.append('correspondence skipped: %s' % e)
-        ctx.required_branches = []
+        ctx.required_branches = list(c15_robust.ORACLE_BRANCHES)
     oracles(ctx, n_small, n_rand if quick else 20000, psk_max, qam_max)
+    c15_robust.oracles(ctx, run_oracle, quick)
     ctx.sample({'call': 'gray2binary', 'n': 98304})
     ctx.sample({'call': 'PSK.__init__', 'M': 16, 'check': 'min-distance pairs differ in one label bit'})
     ctx.sample({'call': 'QAM.__init__.labelmap', 'M': 64, 'compare': 'symbols == natural[model index]'})
@@ -489,3 +507,5 @@ def search(ctx):
             n = (1 << (k - 1)) + ctx.rng.below(1 << (k - 1)) if k > 1 else 1
             run_oracle(ctx, 'gray2binary', {'n': n, 'kind': 'int'})
             run_oracle(ctx, 'binary2gray.consecutive', {'n': n})
+    # R15 / R16 at thorough size (a broken history correspondence usually has a concrete input there)
+    c15_robust.oracles(ctx, run_oracle, False)
